@@ -273,6 +273,12 @@ def insert_file(state, inserted_file_path: str) -> bytes:
             "io-error",
             (state["insn"].ctx_start, state["insn"].ctx_end, f"Could not read file at path '{include_path}'.")
         )
+    except ValueError:
+        # A path the OS cannot even represent, e.g. one with a NUL character
+        reports.error(
+            "io-error",
+            (state["insn"].ctx_start, state["insn"].ctx_end, f"{include_path!r} is not a valid file path.")
+        )
     return b""
 
 
@@ -400,6 +406,13 @@ def include(state, included_file_path: str):
         reports.error(
             "io-error",
             (state["insn"].ctx_start, state["insn"].ctx_end, f"Source file '{include_path}' is not in UTF-8:\n{ex}")
+        )
+        return b""
+    except ValueError:
+        # A path the OS cannot even represent, e.g. one with a NUL character
+        reports.error(
+            "io-error",
+            (state["insn"].ctx_start, state["insn"].ctx_end, f"{include_path!r} is not a valid file path.")
         )
         return b""
 
